@@ -1,6 +1,7 @@
 package main
 
 import (
+	"github.com/coocood/freecache"
 	"bytes"
 	"context"
 	"encoding/json"
@@ -709,6 +710,71 @@ func agentsCmd(out *cq.Out, seed uint64, tier string) {
 				out.Violate("C19:publisher-forwards-twice:after-cache-eviction", fmt.Sprintf("a signed snapshot delivered, then redelivered after %d other signed snapshots, reached the snapshot store %d times", others, cntA), map[string]interface{}{"seed": seed, "others": others})
 			}
 			out.Case("pubevict", true)
+		}
+
+		if lg == 0 {
+			// ---- the agent's duplicate filter sits in front of the tasks: a batch whose contents were altered (signatures
+			// untouched - agents do not check them) is a different batch and must reach the auditor and the monitor even
+			// when the honest one was seen before, in either order
+			cache := freecache.NewCache(gossip.DefaultConfig().CacheSize)
+			honest := &protocol.BatchSnapshots{Snapshots: []*protocol.SignedSnapshot{cloneSigned(signed[0]), cloneSigned(signed[total-1])}}
+			for ai, alter := range []func(b *protocol.BatchSnapshots){
+				func(b *protocol.BatchSnapshots) { b.Snapshots[0].Snapshot.HistoryDigest = flip(b.Snapshots[0].Snapshot.HistoryDigest, 3) },
+				func(b *protocol.BatchSnapshots) { b.Snapshots[0].Snapshot.EventDigest = flip(b.Snapshots[0].Snapshot.EventDigest, 9) },
+				func(b *protocol.BatchSnapshots) { b.Snapshots[1].Snapshot.HistoryDigest = flip(b.Snapshots[1].Snapshot.HistoryDigest, 200) },
+				func(b *protocol.BatchSnapshots) { b.Snapshots[1].Snapshot.Version++ },
+			} {
+				altered := &protocol.BatchSnapshots{Snapshots: []*protocol.SignedSnapshot{cloneSigned(signed[0]), cloneSigned(signed[total-1])}}
+				alter(altered)
+				first := gossip.VWasProcessed(cache, honest)
+				dropped := gossip.VWasProcessed(cache, altered)
+				if ai == 0 && first {
+					out.Violate("C19:honest-batch-dropped", "the agent's duplicate filter treats a batch delivered for the first time as already processed", map[string]interface{}{"seed": seed})
+				}
+				if dropped {
+					out.Violate("C19:altered-batch-dropped-as-already-processed", fmt.Sprintf("after the honest batch, a batch with the same signatures but altered contents (alteration %d) is dropped by the agent's duplicate filter before any task sees it: no check runs, no alert is raised", ai),
+						map[string]interface{}{"seed": seed, "alteration": ai})
+				}
+				out.Case(fmt.Sprintf("dedupe:%d", ai), true)
+			}
+			// ---- a burst of alerts (many consecutive batches fail, as when the server is compromised) against an alert
+			// endpoint with some latency and the default queue of 10: every alert must arrive
+			var bmu sync.Mutex
+			got := 0
+			slow := httptest.NewServer(http.HandlerFunc(func(w http.ResponseWriter, q *http.Request) {
+				io.ReadAll(q.Body)
+				time.Sleep(40 * time.Millisecond)
+				bmu.Lock()
+				got++
+				bmu.Unlock()
+			}))
+			nf := gossip.NewSimpleNotifier([]string{slow.URL}, 10, 500*time.Millisecond, 500*time.Millisecond, log.L())
+			nf.Start()
+			const burst = 40
+			var bwg sync.WaitGroup
+			for i := 0; i < burst; i++ {
+				bwg.Add(1)
+				go func(i int) { defer bwg.Done(); _ = nf.Alert(fmt.Sprintf("verification failed for batch %d", i)) }(i)
+			}
+			withTimeout(20*time.Second, bwg.Wait)
+			for w := 0; w < 100; w++ {
+				bmu.Lock()
+				g := got
+				bmu.Unlock()
+				if g >= burst {
+					break
+				}
+				time.Sleep(100 * time.Millisecond)
+			}
+			bmu.Lock()
+			g := got
+			bmu.Unlock()
+			if g != burst {
+				out.Violate("C19:alert-not-delivered:burst", fmt.Sprintf("%d alerts were raised in a burst (queue of 10, alert endpoint answering in 40 ms); %d reached the endpoint within 10 s", burst, g), map[string]interface{}{"seed": seed})
+			}
+			out.Case("alert-burst", true)
+			nf.Stop()
+			slow.Close()
 		}
 
 		// every recorded alert reaches the notifier endpoint
